@@ -209,11 +209,20 @@ def c2_rootlist(fb, rep):
         a = e.get('args', [])
         ok = any(list_var(x) == lid for x in a)
         rep.ob(clause, 'K15 provenance', 'startThread hands over the list it built', ok, R.site(st, e), '', st.sname)
-    ss = fb.find1('EngineControl::startSearch')
-    if rep.need(clause, ss, 'EngineControl::startSearch'):
-        ok = any(e.get('k') == 'call' and cname(e).endswith('::operator=') and ap(e.get('recv')) == 'this.searchMoves' and 'searchMoves' in show((e.get('args') or [{}])[0]) for _, _, e in ss.events())
-        R.must_pass_between(rep, ss, clause, 'startSearch installs the searchmoves of this go before the thread is started', None, R.is_named_call('EngineControl::startThread'),
-                            lambda e: e is not None and e.get('k') == 'call' and cname(e).endswith('::operator=') and ap(e.get('recv')) == 'this.searchMoves')
+    # every go path (plain and ponder) installs the searchmoves of THIS go before the thread is started: the field
+    # outlives the go, and startThread filters the root list with whatever it finds there
+    starters = [f2 for f2 in fb.funcs.values() if f2.has_cfg and f2.d.get('cls') == 'EngineControl' and f2.sname != 'EngineControl::startThread' and
+                any(e2.get('k') == 'call' and cname(e2) == 'EngineControl::startThread' for _, _, e2 in f2.events())]
+    rep.floor(clause, 'go paths that start the search thread', len(starters), 2)
+    for f2 in sorted(starters, key=lambda x: x.key):
+        par_ids = {p_['id'] for p_ in f2.d.get('params', []) if 'SearchParams' in (p_.get('t') or '')}
+
+        def installs(e2, _ids=par_ids):
+            if e2 is None or e2.get('k') != 'call' or not cname(e2).endswith('::operator=') or ap(e2.get('recv')) != 'this.searchMoves':
+                return False
+            return any(n.get('k') == 'var' and n.get('id') in _ids for a in e2.get('args', []) for n in walk(a))
+        R.must_pass_between(rep, f2, clause, '%s installs the searchmoves of this go before the thread is started' % f2.sname.split('::')[-1], None,
+                            R.is_named_call('EngineControl::startThread'), installs)
     cp = fb.find1('ComputerPlayer::getCommand')
     if cp is not None:
         R.must_pass_between(rep, cp, clause, 'ComputerPlayer::getCommand: the list searched is legality-filtered', None, R.is_named_call('Search::iterativeDeepening'),
